@@ -266,12 +266,12 @@ theorem handleBirth_eq (c : Cfg) (s : St) (ts bdseq id : Nat) (ans : Ans) (now w
     handleBirth c s ts bdseq id ans now wall =
     if ts ≤ s.birthTs then (s, [])
     else
-      if ¬ (s.life = .birthed ∧ s.bdseq = bdseq) ∧ ans ≠ .ok then
+      if ans ≠ .ok then
         ((issueRebirth c s .invalidPayload now wall).1,
           [.nodeBirth id false] ++ (issueRebirth c s .invalidPayload now wall).2)
       else
         ({ (cancelTimer s).1 with birthTs := ts, life := .birthed, bdseq := bdseq, reseq := Reseq.setNext Reseq.init 1, devices := (cancelTimer s).1.devices.map fun d => (d.1, Life.stale) },
-          (if s.life = .birthed ∧ s.bdseq = bdseq then [] else [Eff.nodeBirth id true]) ++
+          [Eff.nodeBirth id true] ++
             (cancelTimer s).2 ++
             ((cancelTimer s).1.devices.filter fun d => d.2 == Life.birthed).map fun d => Eff.devStale d.1) := rfl
 
@@ -314,7 +314,7 @@ theorem step_spec (c : Cfg) (s : St) (i : In) (now wall : Nat) :
         exact (issueRebirth_spec c s .invalidPayload now wall).congr (by simp [CooldownOk])
       · refine NcmdSpec.of_not_mem ?_ (by simp)
         have := cancelTimer_ncmd s
-        split <;> simp [this]
+        simp [this]
   | ndeath bd =>
     rw [step_ndeath_eq]
     simp only [raised, ndeath_bdseq]
@@ -372,7 +372,7 @@ theorem step_stale (c : Cfg) (s : St) (i : In) (now wall : Nat) (hclock : s.birt
         rw [if_neg h2] at h
         have := cancelTimer_ncmd s
         exfalso
-        split at h <;> simp [this] at h
+        simp [this] at h
   | ndeath bd =>
     rw [step_ndeath_eq] at h ⊢
     have hbt : (cancelTimer s).1.birthTs ≤ now := by rw [(cancelTimer_kept s).2.1]; exact hclock
@@ -602,7 +602,7 @@ theorem raised_ndata_ok (c : Cfg) (s : St) (seq ts id : Nat) (now : Nat)
     rcases hin with hin | ⟨hn, hnew⟩
     · rw [hres] at hin; cases hin
     · rw [process_next _ _ _ hinv.1 hseq hn hnew]
-      simp only [Bool.not_true, Bool.false_eq_true, if_false, apply, if_true]
+      simp only [Bool.not_true, Bool.false_eq_true, if_false, apply]
       exact drainBuf_nil _ _ _ _ _ _ hbuf
 
 /-! ### the dispatcher -/
